@@ -163,8 +163,22 @@ class StmtMixin:
             return [st]
         out = []
         for s2, v in self.ev(s.value, st):
+            if s2.status == "run" and v.k == "ref" and v.cls == "list" and v.elem is None:
+                et = self.annotation_elem(s.annotation)
+                if et:
+                    v = V("ref", v.t, cls="list", elem=et, note=v.note)
             out += self.assign(s.target, v, s2) if s2.status == "run" else [s2]
         return out
+
+    def annotation_elem(self, ann):
+        """List[X] / list[X] with X a repo class -> element type of a freshly created local list"""
+        if isinstance(ann, ast.Subscript) and isinstance(ann.value, ast.Name) and ann.value.id in ("List", "list"):
+            x = ann.slice
+            if isinstance(x, ast.Name):
+                for k in self.repo.live["classes"]:
+                    if k == f"{self.cur_mod}.{x.id}" or (k.split(".", 1)[1] == x.id and self.repo.imports.get(self.cur_mod, {}).get(x.id, "").endswith(x.id)):
+                        return k
+        return None
 
     def st_AugAssign(self, s, st):
         load = ast.copy_location(ast.BinOp(left=self._as_load(s.target), op=s.op, right=s.value), s)
@@ -222,11 +236,47 @@ class StmtMixin:
         if isinstance(tgt, ast.Subscript):
             out = []
             if isinstance(tgt.slice, ast.Slice):
-                raise Unsupported(f"{self.where(tgt)}: slice store")
+                return self.assign_slice(tgt, v, st)
             for s2, (o, i) in self.ev_list([tgt.value, tgt.slice], st):
                 out += self.setitem(o, i, v, s2, tgt) if s2.status == "run" else [s2]
             return out
         raise Unsupported(f"{self.where(tgt)}: assignment target {type(tgt).__name__}")
+
+    def assign_slice(self, tgt, v, st):
+        """x[lo:hi] = v for bytearray and list objects (step 1)"""
+        sl = tgt.slice
+        if sl.step is not None:
+            raise Unsupported(f"{self.where(tgt)}: extended slice store")
+        parts = [p for p in (sl.lower, sl.upper) if p is not None]
+        out = []
+        for s2, vs in self.ev_list([tgt.value] + parts, st):
+            if s2.status != "run":
+                out.append(s2)
+                continue
+            o = vs[0]
+            it = iter(vs[1:])
+            lo = next(it) if sl.lower is not None else None
+            hi = next(it) if sl.upper is not None else None
+            if o.k in ("ref", "val") and o.cls == "bytearray":
+                r = self.as_ref(o, s2)
+                data = s2.read("bytearray.data", r)
+                n = z3.Length(data)
+                a, b = self._bounds(lo, hi, n)
+                b = z3.If(b < a, a, b)
+                if v.k != "bytes":
+                    raise Unsupported(f"{self.where(tgt)}: bytearray slice store of {v!r}")
+                s2.write("bytearray.data", r, z3.Concat(z3.SubString(data, 0, a), v.t, z3.SubString(data, b, n - b)))
+                out.append(s2)
+            elif o.k == "ref" and o.cls == "list":
+                seq = s2.items(o.t)
+                n = z3.Length(seq)
+                a, b = self._bounds(lo, hi, n)
+                b = z3.If(b < a, a, b)
+                s2.set_items(o.t, z3.Concat(z3.SubSeq(seq, 0, a), self.as_seq(v, s2), z3.SubSeq(seq, b, n - b)))
+                out.append(s2)
+            else:
+                raise Unsupported(f"{self.where(tgt)}: slice store on {o!r}")
+        return out
 
     def assign_unpack(self, tgt, v, st):
         elts = tgt.elts
